@@ -45,14 +45,9 @@ class WebSocketCodec(BaseComponent):
         self._pending_type = None
         self._close_received = False
         self._close_sent = False
-        self._buffer = bytearray()
-
-        messages = self._parse_messages(bytearray(data))
-        for message in messages:
-            if self._sock is not None:
-                self.fire(read(self._sock, message))
-            else:
-                self.fire(read(message))
+        # data received along with the handshake; it is decoded once the
+        # codec is registered, because replies (pong) go to the parent's channel
+        self._buffer = bytearray(data)
 
     @handler('registered')
     def _on_registered(self, component, parent):
@@ -83,6 +78,13 @@ class WebSocketCodec(BaseComponent):
                 self.unregister()
 
             self.addHandler(_on_disconnect)
+
+            messages = self._parse_messages(bytearray())
+            for message in messages:
+                if self._sock is not None:
+                    self.fire(read(self._sock, message))
+                else:
+                    self.fire(read(message))
 
     def _parse_messages(self, data):
         msgs = []  # one chunk of bytes may result in several messages
